@@ -255,6 +255,53 @@ def mean_case(family):
                 desc=f"{family}: M = E - e sin E  (resp. e sinh H - H), other elements untouched")
 
 
+def mean_back_case(family):
+    """mean -> eccentric: the edge hands the mean anomaly to M2E and stores what M2E returns, untouched, next to the five other
+    elements (M2E itself: M2E/* cases).  Symbolically M2E is replaced by an arbitrary real E*; concretely the real edge runs and
+    its result must satisfy Kepler's equation for the given M (any number of revolutions / negative hyperbolic anomaly)."""
+    ins = [("mu", "pos"), ("a", "real"), ("e", "pos"), ("i", "angle", {"lo": "0"}), ("Om", "angle", {"lo": "0"}),
+           ("om", "angle", {"lo": "0"}), ("M", "real"), ("Estar", "angle", {"lo": "free"}) if family == "ell" else ("Estar", "real")]
+    # elliptic: the eccentric anomaly is an angle (compared modulo a turn); hyperbolic: a real number (compared exactly)
+
+    def pre(v):
+        return [v["a"] > 0, v["e"] < 1] if family == "ell" else [v["a"] < 0, v["e"] > 1]
+
+    def run(env, v):
+        f = F(env)
+        b = body_of(env, v["mu"])
+        if env.symbolic:
+            asked = []
+            saved = f.M2E
+            f.M2E = classmethod(lambda cls, e, M: (asked.append((e, M)), v["Estar"])[1])
+            try:
+                ke = f._keplerian_mean_to_keplerian_eccentric(kvec(env, v, "M"), b)
+            finally:
+                f.M2E = saved
+            ok = len(asked) == 1 and (R.lift(asked[0][0]) - v["e"]).coef == 0 and (R.lift(asked[0][1]) - v["M"]).coef == 0
+            return {"five": list(ke[:5]), "anomaly": Ang(ke[5]) if family == "ell" else ke[5],
+                    "asked": Holds(SB(__import__("z3").BoolVal(bool(ok))))}
+        e = min(float(v["e"]), 0.95) if family == "ell" else max(float(v["e"]), 1.05)
+        a = abs(float(v["a"])) * 7e6 * (1 if family == "ell" else -1)
+        M = float(v["Estar"]) * 3 + float(v["M"])            # a mean anomaly of either sign, possibly several revolutions away
+        ke = f._keplerian_mean_to_keplerian_eccentric(np.array([a, e, v["i"], v["Om"], v["om"], M], dtype=float), b)
+        E = float(ke[5])
+        if family == "ell":
+            res = (E - e * math.sin(E) - M + math.pi) % (2 * math.pi) - math.pi          # modulo whole revolutions
+            return {"five": [0] * 5, "anomaly": Ang(res), "asked": Holds(True)}
+        res = e * math.sinh(E) - E - M
+        return {"five": [0] * 5, "anomaly": res / (1 + abs(M)), "asked": Holds(True)}
+
+    def ref(env, v, out):
+        if not env.symbolic:
+            return {"five": [0] * 5, "anomaly": Ang(0.0) if family == "ell" else 0, "asked": None}
+        return {"five": [v["a"], v["e"], v["i"], v["Om"], v["om"]], "anomaly": Ang(v["Estar"]) if family == "ell" else v["Estar"],
+                "asked": None}
+    return Case(f"mean_back/{family}", ins, run, ref, pre=pre, tol=0, abs_tol=1e-6,
+                extra_points=[{"M": -3.0, "Estar": -1.0}, {"M": 40.0, "Estar": 3.0}, {"M": -0.5, "Estar": 0.0}],
+                desc=f"{family}: mean -> eccentric returns M2E(e, M) unchanged with the other five elements; concretely the returned "
+                     "anomaly satisfies Kepler's equation for the given M")
+
+
 def tle_case():
     ins = [("mu", "pos"), ("a", "pos"), ("e", "pos"), ("i", "angle", {"lo": "0"}), ("Om", "angle", {"lo": "0"}),
            ("om", "angle", {"lo": "0"}), ("M", "angle", {"lo": "0"})]
@@ -816,7 +863,7 @@ def routing_group():
 def all_cases(tier):          # noqa: F811  (extends the list defined above)
     cs = [sph_def_case(), sph_back_case(), cyl_case(), cyl_back_case()]
     for fam in ("ell", "hyp"):
-        cs += [ecc_case(fam), ecc_back_case(fam), mean_case(fam), k2c_case(fam), kck_case(fam, 30 if tier == "quick" else 600),
+        cs += [ecc_case(fam), ecc_back_case(fam), mean_case(fam), mean_back_case(fam), k2c_case(fam), kck_case(fam, 30 if tier == "quick" else 600),
                m2e_case(fam, 8 if tier == "quick" else 9, 120 if tier == "quick" else 300), m2e_start_case(fam), infos_case(fam)]
     cs += [tle_case(), tle_back_case(), circ_case(False), circ_case(True), equi_case(), c2k_def_case("any")] + \
           [m2e_side_case(k) for k in ((-11, 0, 1, 94) if tier == "quick" else (-200, -11, -2, -1, 0, 1, 2, 3, 94, 200))]
